@@ -14,7 +14,7 @@ RULE = ("traced runs with iteration_limit in {1,2,3,20,1000}, forced initial lab
         "distinct by case hash")
 ASSUMPTIONS = ["phases observed at the module-attribute call boundary of the real main loop",
                "per-task optimality certificate only when the worker's exit record says the stopping rule fired"]
-SHARD_TIMEOUT = {"quick": 900, "thorough": 3400}
+SHARD_TIMEOUT = {"quick": 300, "thorough": 3400}
 MIX = {"single:small": 3, "single:general": 2, "single:repop": 3, "single:converge": 2, "joint:joint": 1, "single:empty_final": 1}
 PROPS = ("C09",)
 
